@@ -8,6 +8,8 @@
                                          1 did not return | 2 schedule exhausted; inside an invocation
                                          record the operator's screen is written (0 r), r = the index of
                                          the screen file that invocation was given (in fs' it stays (0))
+     (5 (i j) pdir)                   -> validate_initial of the job directory ((i j), pdir):
+                                         (0 ()) None | (0 ((test training meta))) the dict | (1 why) raised | (2 why i j) named
    Encodings: kind = 0..6 (training test thetas dist selected advanced meta);
    spath = (0) | (1 i j kind); launch = (0 sp) | (1 sp sp) | (2 sp) | (3 sp (i j) excl);
    pdir = (training? test thetas dist selected? advanced? meta? by?);
@@ -147,6 +149,17 @@ Definition run_c19 (orc : oracle) (s : sexp) : sexp :=
       match as_fs f with
       | Some f => of_steps (completed f)
       | None => bad_input
+      end
+  | SL [SZ 5; st; d] =>
+      match as_step st, as_pdir d with
+      | Some st, Some d =>
+          match validate_initial (st, d) with
+          | SOk None => SL [SZ 0; SL []]
+          | SOk (Some r) => SL [SZ 0; SL [SL [of_spath (if_test r); of_spath (if_training r); SZ (if_meta r)]]]
+          | SRaised _ w => SL [SZ 1; SZ w]
+          | SNamed w s => SL [SZ 2; SZ w; SZ (fst s); SZ (snd s)]
+          end
+      | _, _ => bad_input
       end
   | _ => bad_input
   end.
